@@ -95,6 +95,16 @@ example :
       = Res.ok [9, 9, 10, 9] := by
   decide +kernel
 
+/-- non-vacuity of the hypotheses of `initiateExit_eq`: the same registry (all four active at epoch 3) -/
+example :
+    let cfg : Config := { (default : Config) with CHURN_LIMIT_QUOTIENT := 4, MIN_PER_EPOCH_CHURN_LIMIT := 2, MAX_SEED_LOOKAHEAD := 4,
+                                                    MIN_VALIDATOR_WITHDRAWABILITY_DELAY := 256 }
+    let v (e : Nat) : Validator := { (default : Validator) with exit_epoch := e, activation_epoch := 0 }
+    initiateValidatorExit cfg 3 4 [v 9, v 9, v FAR_FUTURE_EPOCH, v 9] 2
+      = .ok (initiate_validator_exit_pure cfg 3 [v 9, v 9, v FAR_FUTURE_EPOCH, v 9] 2) := by
+  intro cfg v
+  exact initiateExit_eq cfg 3 4 _ 2 (by decide) (by decide) (by decide) (by decide) (by decide)
+
 /-- (c) `capella.GetExpectedWithdrawals` (reads the cursor's validator and balance BEFORE testing the
 loop bound, leaves the loop by `break`, wraps its index arithmetic) equals the spec's
 `get_expected_withdrawals` on every state with a non-empty registry containing the sweep cursor and
@@ -105,6 +115,15 @@ theorem withdrawals_eq (cfg : Config) (s : State)
     (hwi : s.next_withdrawal_index + s.validators.length < 2 ^ 64) :
     expectedWithdrawals cfg s = toRes (Block.get_expected_withdrawals cfg s) :=
   BeaconBlock.withdrawals_eq cfg s hbal hlen hcur hwi
+
+/-- non-vacuity of the hypotheses of `withdrawals_eq`: a one-validator state -/
+example :
+    let cfg : Config := { (default : Config) with SLOTS_PER_EPOCH := 8, MAX_VALIDATORS_PER_WITHDRAWALS_SWEEP := 16,
+                                                    MAX_WITHDRAWALS_PER_PAYLOAD := 4, MAX_EFFECTIVE_BALANCE := 32 }
+    let s : State := { (default : State) with validators := [default], balances := [40] }
+    expectedWithdrawals cfg s = toRes (Block.get_expected_withdrawals cfg s) := by
+  intro cfg s
+  exact withdrawals_eq cfg s (by decide) (by decide) (by decide) (by decide)
 
 /-- On an EMPTY registry the two differ (Go: error from the early cursor read; spec: no withdrawals):
 the hypothesis `hcur` is needed. Unreachable: a beacon state always has validators. -/
